@@ -39,6 +39,8 @@ func main() {
 		durMs = 100000
 	}
 	d.Durations(durMs)
+	d.Times()
+	d.Numbers()
 	run.Assume = []string{
 		"value alphabets are boundary alphabets (min/max of every width, NaN/Inf/-0/subnormal floats, hostile and invalid-UTF-8 strings, times inside the int64-nanosecond range, every built-in duration/time/level/caller/name encoder); all 256 level values",
 		"configurations restricted to those whose encoded value the statement defines: built-in sub-encoders or a nil level encoder, distinct keys (nil/no-op time, duration, name encoders have fall-backs and are exercised for validity under C01)",
